@@ -228,6 +228,16 @@ def check_drives(res):
     for sh in DRIVE_SHAPES:
         for fs in ('', 'E', 'EBS', 'EBSNDGZ'):
             check_string(sh, fs, 'U', res)
+        # file-name matching has no drives, whatever the platform rules
+        for fs in ('', 'E', 'EBS'):
+            check_string(sh, fs, 'W', res)
+        # the bytes copy of escape() escapes what the str copy escapes
+        for kw in ({'unix': False}, {'unix': True}, {}):
+            res.n['evaluations'] += 1
+            a, b = G.escape(sh, **kw), G.escape(sh.encode('latin-1'), **kw)
+            if a.encode('latin-1') != b:
+                res.add_violation(ID, run.viol('escape-bytes-text', {'mode': 'glob', 's': sh, 'flags': '', 'plat': 'W' if kw.get('unix') is False else 'U',
+                                                                     'kw': kw}, a, b))
     for fs in covering('EBSNDGZI') + ['C', 'CEBS']:
         fl = 0
         for ch in fs:
@@ -428,6 +438,9 @@ def replay(v):
         check_walk(r)
         hit = [x for x in r.viol if x['input'] == run.jsonable(inp)]
         return {'violates': bool(hit), 'observed': hit[0]['observed'] if hit else 'ok'}
+    if kind == 'escape-bytes-text':
+        a, b = G.escape(s, **inp['kw']), G.escape(s.encode('latin-1'), **inp['kw'])
+        return {'violates': a.encode('latin-1') != b, 'observed': b}
     if kind == 'escape-default-platform':
         e0 = G.escape(s)
         return {'violates': e0 != G.escape(s, unix=True), 'observed': {'escape': e0}}
